@@ -105,7 +105,9 @@ class Result(object):
     """Prints the report, writes evidence, returns the exit code."""
     tab = self.rule_table()
     for r, t in sorted(tab.items()):
-      if t['instances'] < t['floor']:
+      # a rule that already reports a violation is not vacuous; merged or
+      # aggregated violations may legitimately lower its instance count
+      if t['instances'] < t['floor'] and not t['violations']:
         raise AnalysisError(
             'rule %s matched %d instances, fewer than the hand-confirmed '
             'floor %d (vacuity guard)' % (r, t['instances'], t['floor']))
